@@ -375,9 +375,15 @@ class SessionManager:
         '''Refresh the cached header subscription responses to be for height,
         and record that as notified_height.
         '''
-        # Paranoia: a reorg could race and leave db_height lower
-        height = min(height, self.db.state.height)
-        raw = await self.raw_header(height)
+        while True:
+            # A reorg could race and leave db_height lower - also whilst the header is being read
+            height = min(height, self.db.state.height)
+            try:
+                raw = await self.raw_header(height)
+                break
+            except RPCError:
+                if height <= self.db.state.height:
+                    raise
         self.hsub_results = {'hex': raw.hex(), 'height': height}
         self.notified_height = height
 
